@@ -502,7 +502,11 @@ fn wallet_outputs(conn: &Connection, acct: AccountUuid) -> Vec<(u8, [u8; 32], u3
 }
 
 fn orchard_nullifiers(conn: &Connection, acct: AccountUuid) -> Vec<[u8; 32]> {
-    let sql = "SELECT n.nf FROM orchard_received_notes n JOIN accounts a ON a.id = n.account_id WHERE a.uuid = ?1 AND n.nf IS NOT NULL ORDER BY n.nf LIMIT 8";
+    // notes whose spend was mined most recently first: a rewind is then likely to un-mine what the oracle looks at
+    let sql = "SELECT n.nf FROM orchard_received_notes n JOIN accounts a ON a.id = n.account_id
+               LEFT JOIN orchard_received_note_spends sp ON sp.orchard_received_note_id = n.id
+               LEFT JOIN transactions st ON st.id_tx = sp.transaction_id
+               WHERE a.uuid = ?1 AND n.nf IS NOT NULL GROUP BY n.id ORDER BY MAX(st.mined_height) DESC NULLS LAST, n.nf LIMIT 4";
     let mut out = vec![];
     if let Ok(mut st) = conn.prepare(sql) {
         let rows: Vec<Vec<u8>> = st.query_map([acct.expose_uuid()], |r| r.get(0)).map(|it| it.filter_map(|x| x.ok()).collect()).unwrap_or_default();
@@ -979,19 +983,26 @@ pub fn sweep(s: &mut WalletSim, op: &Op, ch: &mut Choices, ctx: &mut RunCtx, pos
         let want_post = expect(&ref_path);
         if want_pre != want_post {
             ctx.probe("library_read_distinguishes_pre_and_post");
-            let total_steps = {
-                // how long the reader runs on its own
-                let cnt = Arc::new(AtomicU64::new(0));
-                let c3 = cnt.clone();
+            let (total_steps, marks) = {
+                // how long the reader runs on its own, and where each oracle call starts
+                LIB_STEP.with(|c| c.set(0));
+                LIB_MARKS.with(|m| m.borrow_mut().clear());
                 conn2.progress_handler(1, Some(move || {
-                    c3.fetch_add(1, Ordering::Relaxed);
+                    LIB_STEP.with(|c| c.set(c.get() + 1));
                     false
                 }));
                 let _ = lib_read(&conn2, net_b, &clock_b, &accounts_b);
                 conn2.progress_handler(1, None::<fn() -> bool>);
-                cnt.load(Ordering::Relaxed).max(1)
+                (LIB_STEP.with(|c| c.get()).max(1), LIB_MARKS.with(|m| m.borrow().clone()))
             };
-            let at = 1 + ch.below("k.readerLib", total_steps);
+            // half of the time right after the start of one of the migration-oracle calls (where a read that is not
+            // covered by the call's read transaction would sit), otherwise anywhere
+            let at = if !marks.is_empty() && ch.chance("k.readerLib.at_call_start", 1, 2) {
+                ctx.probe("commit_aimed_at_start_of_oracle_call");
+                (marks[ch.idx("k.readerLib.call", marks.len())] + 1 + ch.below("k.readerLib.off", 60)).min(total_steps)
+            } else {
+                1 + ch.below("k.readerLib", total_steps)
+            };
             let env_b = Env::of(s);
             let conn_ptr = SendPtr(&mut s.conn as *mut Connection);
             let c2_ptr = SendPtr(&conn2 as *const Connection as *mut Connection);
@@ -1116,6 +1127,13 @@ fn restore(s: &mut WalletSim, scratch: &Path, pre: &Dump) -> Result<(), Violatio
     Ok(())
 }
 
+thread_local! {
+    /// VM step counter of the connection a library read runs on, and the counter's value at the start of each
+    /// satisfiability call (so that a concurrent commit can be aimed at the first steps of a call)
+    static LIB_STEP: Cell<u64> = const { Cell::new(0) };
+    static LIB_MARKS: RefCell<Vec<u64>> = const { RefCell::new(Vec::new()) };
+}
+
 /// Library-level reads, one entry per call (each must be consistent in itself whatever a writer does meanwhile).
 fn lib_read(c: &Connection, net: LocalNetwork, clock: &SimClock, accounts: &[AccountUuid]) -> Vec<(String, String)> {
     let mut out = vec![];
@@ -1127,7 +1145,7 @@ fn lib_read(c: &Connection, net: LocalNetwork, clock: &SimClock, accounts: &[Acc
         }));
     }
     for (i, a) in accounts.iter().enumerate() {
-        out.extend(crate::migration::render_migration_reads(net, c, *a, &format!("acct{i}")));
+        out.extend(crate::migration::render_migration_reads(net, c, *a, &format!("acct{i}"), &|| LIB_MARKS.with(|m| m.borrow_mut().push(LIB_STEP.with(|c| c.get())))));
     }
     out
 }
